@@ -717,6 +717,31 @@ def m_result_unwrap(ex, st, args, dty, canon):
     return f(st, cases[0][1])
 
 
+@pattern(r'^(std::)?(option::)?Option::<.*>::(get_or_insert|insert|replace)$')
+def m_option_insert(ex, st, args, dty, canon):
+    p = args[0]
+    if not isinstance(p, Ptr):
+        raise Inconclusive('Option::%s on non-pointer' % canon[3])
+    v = deref(ex, st, p)
+    path = [(k, None) for k in p.path]
+    inner = Ptr(p.cell, p.path + (('v', 1), 0))
+    op = canon[3]
+    if op == 'insert':
+        ex.store(st, p.cell, path, some(args[1]))
+        return inner
+    if op == 'replace':
+        ex.store(st, p.cell, path, some(args[1]))
+        return v
+    cases = enum_cases(ex, st, v, 2)
+
+    def f(s, i):
+        if i == 0:
+            ex.store(s, p.cell, path, some(args[1]))
+        return inner
+    fork_on(cases, f)
+    return f(st, cases[0][1])
+
+
 @pattern(r'^(std::)?(option::)?Option::<.*>::(take)$')
 def m_option_take(ex, st, args, dty, canon):
     p = args[0]
